@@ -107,19 +107,23 @@ class AllocatorAwarePointer
             {
                 if (get_allocator() != other.get_allocator())
                 {
+                    // allocate first because it might throw
+                    auto new_ptr = AllocatorAwarePointer::allocate_if_not_zero(other.size(), other.get_allocator());
                     deallocate();
                     propagate_on_container_copy_assignment(other);
                     size() = other.size();
-                    get() = allocate();
+                    get() = new_ptr;
                     return *this;
                 }
             }
             propagate_on_container_copy_assignment(other);
             if (size() < other.size() || !get())
             {
+                // allocate first because it might throw
+                auto new_ptr = AllocatorAwarePointer::allocate_if_not_zero(other.size(), get_allocator());
                 deallocate();
                 size() = other.size();
-                get() = allocate();
+                get() = new_ptr;
             }
         }
         return *this;
